@@ -314,6 +314,7 @@ def run(tier, seed, out, drv, facts):
     # TypeVars made by typing_extensions (PEP 696: they carry `__default__`; on this interpreter they are ordinary
     # typing.TypeVar instances): a default does not restrict anything
     check_pep696_typevars(out, ucats[:6])
+    any_partial_duck_cases(out, ucats[:6])
     nested_after_transparent(out)
     # ---- scalars
     sspecs, smeta = [], []
@@ -360,6 +361,43 @@ def nested_after_transparent(out):
             if v != fv:
                 out.violation(f"nested:after-transparent:{outer}[{inner}]", f"{outer}[{inner}[Duck, 'h w'], 'b'] ({name} that uses the inner annotation as its return annotation) gives {v[:60]} "
                               f"on the probe values, the flat equivalent {cat}[Duck, 'b h w'] gives {fv[:60]}", {"nested_after_transparent": [outer, inner]})
+
+
+class _ShapeOnly:
+    shape = (3,)
+
+
+class _DtypeOnly:
+    dtype = "float32"
+
+
+def any_partial_duck_cases(out, cats):
+    """`Any` (and what an unconstrained TypeVar stands for) as the array type: a value is array-like when it has BOTH
+    `.shape` and `.dtype`; a value with one of them only (a memoryview, a numpy dtype object, user classes) is no array:
+    the answer is False for every category and dim string, never an exception"""
+    import numpy as np
+
+    values = [("memoryview", memoryview(b"abc")), ("np.dtype", np.dtype("float32")), ("shape-only object", _ShapeOnly()),
+              ("dtype-only object", _DtypeOnly()), ("np.float32 type", np.float32)]
+    T = typing.TypeVar("T")
+    for cat in cats:
+        c = makeimpl.cat_class(cat)
+        for aname, aty in (("Any", typing.Any), ("T", T)):
+            for dims in ("3", "", "...", "a"):
+                try:
+                    ann = c[aty, dims]
+                except Exception:  # noqa: BLE001
+                    continue
+                for vname, v in values:
+                    has = (hasattr(v, "shape"), hasattr(v, "dtype"))
+                    if all(has):
+                        continue
+                    r = makeimpl.verdict_char(ann, v)
+                    out.case(("any-partial-duck", cat, aname, dims, vname), True, sample={"cat": cat, "array_type": aname, "dims": dims, "value": vname, "verdict": r})
+                    if r != "0":
+                        out.violation(f"any:partial-duck:{vname}", f"isinstance(<{vname}>, {cat}[{aname}, {dims!r}]) gives {r!r} ('1' accepted, 'E' raised); the value has "
+                                      f"shape={has[0]}, dtype={has[1]}, so it is not array-like and the answer is False", {"any_partial": vname, "cat": cat, "dims": dims})
+                        return
 
 
 def check_pep696_typevars(out, cats):
@@ -413,6 +451,8 @@ def replay(rep, out, drv, facts):
         check_aliases(out)
     elif "nested_after_transparent" in rep:
         nested_after_transparent(out)
+    elif "any_partial" in rep:
+        any_partial_duck_cases(out, [rep["cat"]])
     elif "pep696" in rep:
         check_pep696_typevars(out, [rep["cat"]])
     elif "spec" in rep:
